@@ -19,7 +19,7 @@ fn last_axis(g: &G, r: usize, salt: u32) -> i64 {
 /// 2 swapped Where branches, 3 IsNaN looks at a second Softmax node over another axis, 4 IsNaN(x).
 /// Free: softmax axis (any) and its spelling.
 pub fn safe_softmax(g: &mut G) -> Vid {
-    g.nk = 5;
+    g.knobs(&["zeroval", "zeroshape", "swapwhere", "dupsoftmax", "nanofx"]);
     let shape = g.base_shape(1, 4);
     let r = shape.len();
     let x = g.ctx_input(&shape);
@@ -54,7 +54,7 @@ pub fn safe_softmax(g: &mut G) -> Vid {
 /// knobs: 0 softmax axis (last / first), 1 mask shape (same / [last] / [1;r] / [..,1] / [1]+shape / mask larger than qk),
 /// 2 LogSoftmax. Free: -1 vs r-1, mask constant or graph input, operand order.
 pub fn add_softmax(g: &mut G) -> Vid {
-    g.nk = 3;
+    g.knobs(&["axis0", "maskshape", "logsoftmax"]);
     let shape = g.base_shape(1, 4);
     let r = shape.len();
     let mk = g.kc(1, 6);
@@ -132,7 +132,7 @@ fn repeat(g: &mut G, x: Vid, a: usize, reps: usize, tile: bool, extra_axis: Opti
 /// 3 Expand also broadcasts another size-1 axis, 4 Reshape flattens everything, 5 input dims may be symbolic (canonical: all fixed).
 /// Free: repeated axis, negative axis spelling, 1s in the Expand shape, -1 in the Reshape target.
 pub fn repeat_interleave(g: &mut G) -> Vid {
-    g.nk = 6;
+    g.knobs(&["tile", "reps", "int32", "extraaxis", "flatten", "symdims"]);
     let mut shape = g.base_shape(2, 4);
     let r = shape.len();
     let a = g.free(1, r);
@@ -161,7 +161,7 @@ pub fn repeat_interleave(g: &mut G) -> Vid {
 /// 6 input dims may be symbolic (canonical: all fixed).
 /// Free: V-variant or K-variant, Mul or Div scale, repeats 2 or 3.
 pub fn gqa(g: &mut G) -> Vid {
-    g.nk = 7;
+    g.knobs(&["noscale", "perm", "axis", "lhsrank3", "onehead", "tile", "symdims"]);
     if g.kc(6, 2) == 0 {
         g.fixed_dims = 0x0F;
     }
@@ -234,7 +234,7 @@ fn perm_for(g: &G, r: usize, kind: usize) -> Option<Vec<usize>> {
 /// 2 perm kind (random / default / identity / swap last two).
 /// Free: which consumer and which operand position, consumer axis.
 pub fn transpose(g: &mut G) -> Vid {
-    g.nk = 3;
+    g.knobs(&["otherconsumer", "int32", "perm"]);
     let shape = g.base_shape(2, 4);
     let r = shape.len();
     let mut consumer = g.free(1, 9);
